@@ -213,11 +213,6 @@ theorem newIds_getElem (n k i : Nat) (h : i < (newIds n k).length) : (newIds n k
 
 /-! ### growth -/
 
-structure WF (n : Nat) (a : Arr) : Prop where
-  used : a.lenUsed = n
-  tot : a.lenTot = a.raw.length
-  le : n ≤ a.raw.length
-
 /-- the storage after the reallocation step of `grow`, before the new values are written -/
 def growStore (a : Arr) (nNew : Nat) : Arr :=
   let lenUsed' := a.lenUsed + nNew
@@ -492,6 +487,103 @@ theorem sorted_unique : ∀ l : List Nat, (unique l).Pairwise (· < ·)
       exact sorted_insertSorted x _ ih
 
 end Uids
+
+
+
+/-! ### casting -/
+
+theorem castList_length (k : Kind) : ∀ (vs vs' : List Val), vs.mapM (castVal k) = some vs' → vs'.length = vs.length
+  | [], vs', h => by simp at h; subst h; rfl
+  | v :: vs, vs', h => by
+      simp only [List.mapM_cons, bind, Option.bind] at h
+      cases hv : castVal k v with
+      | none => simp [hv] at h
+      | some w =>
+          simp only [hv] at h
+          cases hr : vs.mapM (castVal k) with
+          | none => simp [hr] at h
+          | some ws =>
+              simp only [hr, pure, Option.some.injEq] at h
+              subst h
+              simp [castList_length k vs ws hr]
+
+theorem castVal_conforms (k : Kind) (v w : Val) (h : castVal k v = some w) : conforms k w = true := by
+  cases v with
+  | undef => simp [castVal] at h; subst h; cases k <;> rfl
+  | num r =>
+      cases k <;> simp [castVal, Val.toRat?, Val.truthy] at h <;> subst h <;> simp [conforms]
+  | bool b =>
+      cases k <;> simp [castVal, Val.toRat?, Val.truthy] at h <;> subst h <;> simp [conforms]
+  | nan =>
+      cases k <;> simp [castVal, Val.toRat?, Val.truthy] at h <;> try (subst h; simp [conforms])
+
+/-- a value that already has the dtype is stored unchanged -/
+theorem castVal_of_bool (b : Bool) : castVal .bool (.bool b) = some (.bool b) := by simp [castVal, Val.truthy]
+theorem castVal_float_num (r : Rat) : castVal .float (.num r) = some (.num r) := by simp [castVal, Val.toRat?]
+theorem castVal_float_nan : castVal .float .nan = some .nan := by simp [castVal, Val.toRat?]
+
+
+/-! ### written values / wrapped identifiers -/
+
+theorem updMany_mem (m : Nat → Val) : ∀ (us : List Nat) (vs : List Val) (x : Nat), updMany m us vs x = m x ∨ updMany m us vs x ∈ vs
+  | [], _, _ => Or.inl (by simp [updMany])
+  | _ :: _, [], _ => Or.inl (by simp [updMany])
+  | u :: us, v :: vs, x => by
+      simp only [updMany]
+      rcases updMany_mem (fun y => if y = u then v else m y) us vs x with h | h
+      · by_cases hx : x = u
+        · right; rw [h]; simp [hx]
+        · left; rw [h]; simp [hx]
+      · right; exact List.mem_cons_of_mem _ h
+
+theorem castList_conforms (k : Kind) : ∀ (vs ws : List Val), vs.mapM (castVal k) = some ws → ∀ w ∈ ws, conforms k w = true
+  | [], ws, h, w, hw => by simp at h; subst h; simp at hw
+  | v :: vs, ws, h, w, hw => by
+      simp only [List.mapM_cons, bind, Option.bind] at h
+      cases hv : castVal k v with
+      | none => simp [hv] at h
+      | some c =>
+          simp only [hv] at h
+          cases hr : vs.mapM (castVal k) with
+          | none => simp [hr] at h
+          | some cs =>
+              simp only [hr, pure, Option.some.injEq] at h
+              subst h
+              rcases List.mem_cons.mp hw with rfl | hw
+              · exact castVal_conforms k v _ hv
+              · exact castList_conforms k vs cs hr w hw
+
+theorem wrapOne_neg (len j : Nat) (h1 : 1 ≤ j) (h2 : j ≤ len) : wrapOne len (-(j : Int)) = some (len - j) := by
+  unfold wrapOne
+  have e1 : (-(j : Int) < 0) := by omega
+  have e2 : 0 ≤ -(j : Int) + (len : Int) := by omega
+  have e3 : (-(j : Int) + (len : Int)).toNat = len - j := by omega
+  rw [if_pos e1, if_pos e2, e3]
+
+theorem wrapOne_too_neg (len j : Nat) (h : len < j) : wrapOne len (-(j : Int)) = none := by
+  unfold wrapOne
+  have e1 : (-(j : Int) < 0) := by omega
+  have e2 : ¬ (0 ≤ -(j : Int) + (len : Int)) := by omega
+  rw [if_pos e1, if_neg e2]
+
+theorem wrapOne_nat (len i : Nat) : wrapOne len (i : Int) = if i < len then some i else none := by
+  unfold wrapOne
+  have e1 : ¬ ((i : Int) < 0) := by omega
+  rw [if_neg e1]
+  by_cases h : i < len
+  · have : (i : Int) < (len : Int) := by omega
+    simp [h, this]
+  · have : ¬ ((i : Int) < (len : Int)) := by omega
+    simp [h, this]
+
+theorem wrapIds_nat (len : Nat) : ∀ us : List Nat, (∀ u ∈ us, u < len) → wrapIds len (us.map (fun (u : Nat) => (u : Int))) = some us
+  | [], _ => rfl
+  | u :: us, h => by
+      have hu := h u (List.mem_cons_self ..)
+      have ih := wrapIds_nat len us (fun x hx => h x (List.mem_cons_of_mem _ hx))
+      simp only [wrapIds] at ih ⊢
+      simp only [List.map_cons, List.mapM_cons, wrapOne_nat, hu, ↓reduceIte, bind, Option.bind, ih]
+      rfl
 
 
 end StarsimModel.Arr
